@@ -238,6 +238,25 @@ let gen_index ~seed ~n emit =
         end
   done
 
+(* ---- id 0 marks an unused slot and is therefore never present (known finding: find(0) = Some(0)) ---- *)
+let gen_findzero ~seed:_ ~n:_ emit =
+  let case be l = emit_fixed emit (Printf.sprintf "c17.findzero %d %s" (bflag be) (hex_of_ints l)) "ok none" in
+  List.iter (fun be ->
+    case be [];
+    List.iter (fun (slots, ids) ->
+      match build_table slots (List.mapi (fun i id -> (Z.of_int id, Z.of_int (i + 1))) ids) with
+      | None -> ()
+      | Some tbl ->
+          let units = min (List.length ids) (max 0 (slots - 1)) in
+          List.iter (fun v2 ->
+            case be (mk_index be ~v2 ~pad:0 ~cols:[1] ~unit_count:(Z.of_int units) ~slots:tbl
+                       ~offsets:(List.init units (fun i -> Z.of_int i)) ~sizes:(List.init units (fun i -> Z.of_int i))))
+            [true; false])
+      [ (2, []); (2, [1]); (4, [1; 2; 3]); (4, [4]); (4, [4; 8]); (4, [4; 1; 2; 3]); (8, [9; 17; 3]); (8, [8; 1]);
+        (16, [5]); (1, []); (1, [7]) ];
+    (* no hash table at all *)
+    case be (mk_index be ~v2:true ~pad:0 ~cols:[1] ~unit_count:Z.zero ~slots:[] ~offsets:[] ~sizes:[])) [false; true]
+
 (* ---- DwarfPackage::cu_sections contribution arithmetic ---- *)
 let pkg_case emit be (l : int list) (row : Z.t) (lens : int array) =
   let bs = bytes_of_ints l in
@@ -793,6 +812,8 @@ let gen_corpus ~seed:_ ~n:_ emit =
 let () =
   register "c17.index" ~doc:"UnitIndex::parse/find/sections: tables built by insertion at every load factor (slot counts 1..32, colliding ids, full tables), every column-kind subset of v2/v5, every column code 0..300, rejected slot counts, version variants, mutated/truncated sections; every present id and absent ids probed; harness oracle find = exhaustive scan"
     gen_index;
+  register "c17.findzero" ~doc:"UnitIndex::find(0): id 0 is the unused-slot marker and never present (oracle; known finding on the unchanged tree)"
+    gen_findzero;
   register "c17.pkg" ~doc:"DwarfPackage::cu_sections contribution ranges (Section::dwp_range) for every column subset and row, random out-of-range contributions"
     gen_pkg;
   register "c17.names" ~doc:"debug_names: header, NameIndex::new layout, CU/TU lists, abbreviations (every 1-2 byte table), bucket and hash iteration (bucket counts 0/1/n, duplicate hashes), entry pool with parent chains and type units; ill-formed buckets; mutations"
